@@ -60,6 +60,9 @@ class DetSpy:
         return False
 
 
+SHARED = {}
+
+
 def one(case):
     cr = case["crystal"]
     atoms = Atoms(numbers=cr["numbers"], cell=cr["cell"], scaled_positions=cr["scaled_positions"], pbc=True)
@@ -74,7 +77,19 @@ def one(case):
     # a second, fresh analyzer must give the same answer (no hidden state)
     an2 = SymmetryAnalyzer(atoms, symmetry_tol=tol) if tol is not None else SymmetryAnalyzer(atoms)
     flag2 = an2.get_is_chiral()
-    return {"id": case["id"], "number": number, "hall": hall,
+    # history: ONE analyzer object per tolerance is handed every crystal of this process through set_system(); its answer
+    # must be the answer of a fresh analyzer
+    reused = None
+    try:
+        sh = SHARED.get(tol)
+        if sh is None:
+            sh = SHARED[tol] = SymmetryAnalyzer(atoms.copy(), symmetry_tol=tol) if tol is not None else SymmetryAnalyzer(atoms.copy())
+        else:
+            sh.set_system(atoms.copy())
+        reused = [bool(sh.get_is_chiral()), int(sh.get_space_group_number()), bool(sh.get_is_chiral())]
+    except Exception as e:  # noqa
+        reused = ["error", type(e).__name__ + ": " + str(e)[:120]]
+    return {"id": case["id"], "number": number, "hall": hall, "reused_analyzer": reused,
             "flag": bool(flag), "flag_type": type(flag).__name__, "flag_again": bool(flag2),
             "rotations": rots.astype(int).tolist(), "rotations_dtype": str(rots.dtype),
             "scanned": spy.seen, "dets": spy.vals, "nonint": spy.nonint}
